@@ -425,3 +425,69 @@ func (r *Run) Cap(msg string) {
 	}
 	r.Caps = append(r.Caps, msg)
 }
+
+// ShardData is the serialisable form of a shard (for process-level sharding).
+type ShardData struct {
+	Evals, States, Transitions int64
+	Nontriv                    []uint64
+	Outcomes, Clauses          map[string]int64
+	Counters                   map[string]int64
+	Viols                      map[string]*Violation
+	ViolCount                  map[string]int64
+	Samples                    []interface{}
+	Caps                       []string
+	Extra                      map[string]interface{}
+}
+
+// Export serialises the shard.
+func (s *Shard) Export(caps []string, extra map[string]interface{}) ([]byte, error) {
+	s.compact()
+	return json.Marshal(ShardData{s.evals, s.states, s.transitions, s.nontriv, s.outcomes, s.clauses, s.counters, s.viols, s.violCount, s.samples, caps, extra})
+}
+
+// Import merges an exported shard into the run; numeric extras are summed.
+func (r *Run) Import(b []byte) error {
+	var d ShardData
+	if err := json.Unmarshal(b, &d); err != nil {
+		return err
+	}
+	s := r.Shard()
+	s.evals, s.states, s.transitions, s.nontriv = d.Evals, d.States, d.Transitions, d.Nontriv
+	if d.Outcomes != nil {
+		s.outcomes = d.Outcomes
+	}
+	if d.Clauses != nil {
+		s.clauses = d.Clauses
+	}
+	if d.Counters != nil {
+		s.counters = d.Counters
+	}
+	if d.Viols != nil {
+		s.viols = d.Viols
+	}
+	if d.ViolCount != nil {
+		s.violCount = d.ViolCount
+	}
+	s.samples = d.Samples
+	r.Merge(s)
+	for _, c := range d.Caps {
+		r.Cap(c)
+	}
+	r.mu.Lock()
+	for k, v := range d.Extra {
+		if f, ok := v.(float64); ok {
+			if old, ok := r.Extra[k].(float64); ok {
+				r.Extra[k] = old + f
+			} else if _, exists := r.Extra[k]; !exists {
+				r.Extra[k] = f
+			}
+		} else if _, exists := r.Extra[k]; !exists {
+			r.Extra[k] = v
+		}
+	}
+	r.mu.Unlock()
+	return nil
+}
+
+// SetStart overrides the start time (used when the work ran in other processes).
+func (r *Run) SetStart(t time.Time) { r.start = t }
